@@ -176,6 +176,23 @@ pub fn run_stress(case: &Value) -> Value {
                     if (it + polls) % 7 == 0 {
                         continue;
                     }
+                    if it % 2 == 1 {
+                        // instead of parking at once, keep probing the flags for a while: real
+                        // contention on the mutex with whatever the producer does next
+                        for _ in 0..3000 {
+                            match std::panic::catch_unwind(std::panic::AssertUnwindSafe(|| (b.is_end_stream(), b.size_hint()))) {
+                                Ok((e, _)) => eos_said = eos_said || e,
+                                Err(_) => break,
+                            }
+                            let g = sig.m.lock().unwrap();
+                            if g.0 || g.1 || eos_said {
+                                break;
+                            }
+                        }
+                        if eos_said {
+                            continue; // poll again: must not deliver data or an error any more
+                        }
+                    }
                     let mut g = sig.m.lock().unwrap();
                     while !g.0 && !g.1 {
                         g = sig.cv.wait(g).unwrap();
